@@ -12,6 +12,7 @@ import (
 	"io"
 	"sort"
 	"sync"
+	"sync/atomic"
 
 	"github.com/ipfs/go-unixfsnode"
 	"github.com/ipfs/go-unixfsnode/data/builder"
@@ -82,10 +83,14 @@ func runConcInput(rep *Report, in ConcInput) {
 	blocks := st.Blocks
 	ls := cidlink.DefaultLinkSystem()
 	ls.TrustedStorage = true
+	var failing int32 // while set, every block but the root is unavailable (mix "heal")
 	ls.StorageReadOpener = func(_ ipld.LinkContext, l datamodel.Link) (io.Reader, error) {
 		b, ok := blocks[l.(cidlink.Link).Cid.KeyString()]
 		if !ok {
 			return nil, fmt.Errorf("missing")
+		}
+		if atomic.LoadInt32(&failing) == 1 && !l.(cidlink.Link).Cid.Equals(rootLink.(cidlink.Link).Cid) {
+			return nil, fmt.Errorf("storage temporarily unavailable")
 		}
 		return bytes.NewReader(b), nil
 	}
@@ -97,6 +102,45 @@ func runConcInput(rep *Report, in ConcInput) {
 		must(err)
 		if in.Warm && in.Kind == "dir" {
 			node.Length()
+		}
+		if in.Mix == "heal" {
+			// storage fails while the goroutines make their first calls, then recovers: a failed walk must leave
+			// nothing behind on the node, the calls made afterwards return what they return on a fresh node
+			atomic.StoreInt32(&failing, 1)
+			var wg0 sync.WaitGroup
+			bad := make(chan string, in.Goroutines)
+			for g := 0; g < in.Goroutines; g++ {
+				g := g
+				wg0.Add(1)
+				go func() {
+					defer wg0.Done()
+					defer func() {
+						if r := recover(); r != nil {
+							bad <- fmt.Sprint("panic while storage was failing: ", r)
+						}
+					}()
+					switch g % 3 {
+					case 0:
+						if got := node.Length(); got != 0 {
+							bad <- fmt.Sprintf("Length with every child shard unavailable returned %d, alone it returns 0", got)
+						}
+					case 1:
+						_, _ = node.LookupByString(fmt.Sprintf("entry-%d", g))
+					default:
+						it := node.MapIterator()
+						for steps := 0; !it.Done() && steps < 4*in.Entries+64; steps++ {
+							_, _, _ = it.Next()
+						}
+					}
+				}()
+			}
+			wg0.Wait()
+			close(bad)
+			for e := range bad {
+				fail("result-differs-faulty", "a call made concurrently while storage was failing returned something else than when run alone", "the sequential result", e)
+				return
+			}
+			atomic.StoreInt32(&failing, 0)
 		}
 		start := make(chan struct{})
 		var wg sync.WaitGroup
@@ -113,7 +157,7 @@ func runConcInput(rep *Report, in ConcInput) {
 				}()
 				<-start
 				op := in.Mix
-				if op == "mixed" {
+				if op == "mixed" || op == "heal" {
 					op = []string{"length", "lookup", "iterate", "lookup"}[g%4]
 				}
 				switch {
@@ -221,6 +265,10 @@ func scnConc(rep *Report, rng *Rng, tier string, outdir string) {
 	// every other fanout meets its first reader concurrently (process-wide caches keyed by fanout start cold)
 	for i, f := range []int{8, 32, 64, 128, 512, 1024} {
 		ins = append(ins, ConcInput{Kind: "dir", Fanout: f, Entries: 120, Goroutines: 4, Mix: []string{"lookup", "iterate", "length"}[i%3], Warm: false, Rounds: 3})
+	}
+	// storage that fails during the first calls and then recovers
+	for i, g := range []int{2, 8, 16} {
+		ins = append(ins, ConcInput{Kind: "dir", Fanout: []int{8, 16, 256}[i], Entries: 300, Goroutines: g, Mix: "heal", Rounds: rounds / 2})
 	}
 	// files whose interior nodes have no BlockSizes: readers measure the children by opening them
 	for _, g := range []int{2, 8} {
